@@ -22,6 +22,7 @@ def _run(c, name, n, seed=None, corr=CORR):
 
 def run(c):
     c.proofs("theories/Properties/C19.v", clean=(c.tier == "thorough"))
+    c.translate(['TiePool'])  # T1: formulas / constants regenerated from the source, tie theorems re-checked
     n = 140 if c.tier == "quick" else 3000
     _run(c, "pool", n)
     if c.broken and not c.violations and not c.replay:
